@@ -52,9 +52,9 @@ def check_builddir(bdir):
         if t.get('type') in ('run', 'alias', 'jar'):
             continue
         outs = [rel(f) for f in t.get('filename', [])]
-        for o in outs:
-            if o not in mf.producer:
-                v.append(('C04:target-output-not-produced', 'target %s: no statement produces %s' % (t['id'], o)))
+        # (whether the file names reported by introspection are the ones build.ninja produces is property C15's
+        # business; names no statement produces are only counted here)
+        st['intro_names_without_statement'] = st.get('intro_names_without_statement', 0) + sum(1 for o in outs if o not in mf.producer)
         if t.get('build_by_default'):
             st['bbd_targets'] += 1
             for o in outs:
@@ -272,8 +272,8 @@ def main():
         t = tot.setdefault(kind, {'n': 0, 'configured': 0, 'rejected': 0, 'crash': 0, 'timeout': 0, 'edges': 0, 'bbd_targets': 0, 'tests': 0})
         t['n'] += 1
         t[outcome] += 1
-        for k in ('edges', 'bbd_targets', 'tests'):
-            t[k] += st.get(k, 0)
+        for k in ('edges', 'bbd_targets', 'tests', 'intro_names_without_statement'):
+            t[k] = t.get(k, 0) + st.get(k, 0)
         classes.add((kind, outcome, min(st.get('edges', 0) // 5, 6)))
         if kind == 'neg':
             ck.sample({'collision_case': name, 'outcome': outcome}, cap=6)
